@@ -364,6 +364,13 @@ impl pipe::Sink for RespondStream {
         }
         .await
     }
+
+    async fn flush(&mut self) -> io::Result<()> {
+        // The frames handed to h2 are written out by the connection itself, there is nothing
+        // to push from here. In particular there is no capacity to wait for (the default):
+        // once the end of the stream has been sent it never becomes writable again.
+        Ok(())
+    }
 }
 
 impl http_codec::DroppingSink for RespondStream {
